@@ -5,7 +5,7 @@ import (
 	"go/token"
 	"go/types"
 
-	"golang.org/x/tools/go/cfg"
+	cfg "verifcheck/cfgx"
 	"golang.org/x/tools/go/types/typeutil"
 )
 
